@@ -165,6 +165,22 @@ theorem live_unbounded_current (P : Params) (S : Sem D V O) (st : State D V H) (
       exact Nat.le_mul_of_pos_right _ hstep
     omega
 
+/-- **live_bounded** for the CURRENT code (after the `theta_chain_finalize` repair the allocation behaviour of the library is the model's
+    `leaky = false`: every chain releases its `steps` block before the operation returns — checked on every run by the heap ledger: no
+    block allocated during keygen / sign / verify survives the call, at three levels and for the three protocol variants): for every
+    history, live bytes ≤ initial + bytes of the objects the caller initialised. The linear-growth theorems above
+    (`theta_bytes_current`, `live_linear_growth_current`, `live_unbounded_current`) describe the pinned code before the repair and are
+    kept as history / as the model of a reverted fix. -/
+theorem live_bounded (P : Params) (S : Sem D V O) (ops : List Op) (st : State D V H) :
+    bytes (run P S false st ops).1.live ≤ bytes st.live + initBytes P ops :=
+  live_bounded_repaired P S ops st
+
+/-- in particular no `steps` memory is ever held between operations -/
+theorem theta_bytes_zero (P : Params) (S : Sem D V O) (ops : List Op) (st : State D V H) (h : thetaBytes st.live = 0) :
+    thetaBytes (run P S false st ops).1.live = 0 := by
+  have := theta_bytes_run P S false ops st
+  simpa [h] using this
+
 /-! ## determinism / no hidden state -/
 
 /-- outputs depend only on the DRBG state and the object values: not on the ledger, the audited globals, the parameters or
@@ -231,11 +247,14 @@ theorem repeated_verify_same_verdict (P : Params) (S : Sem D V O) (l : Bool) (st
 
 /-! ## every early return is balanced, except the audited ones (tie T, tools/translate/retpaths.py) -/
 
-/-- audited unbalanced returns on the current tree (each is a genuine leak on a failure path; fixed_degree_isogeny, clapotis, norm_list_computation and is_good_norm were
+/-- audited unbalanced returns on the current tree (theta chains included: a local chain handed to `theta_chain_comput_*`,
+    `fixed_degree_isogeny` or clapotis owns its `steps` block until `theta_chain_finalize`; the entry `sqisignhd commit 0 chain:F` is the
+    failure return of `commit`, where `fixed_degree_isogeny` left the chain empty (steps = NULL): nothing to release; the other entries are each a genuine leak on a failure path; fixed_degree_isogeny, clapotis, norm_list_computation and is_good_norm were
     repaired by 00b2604 and are gone from the list; the heuristic / hd signers' `return 0` after a
     failed sample_response ("TODO when it fails, we don't finalize all the ibz") is not small) -/
 def auditedUnbalancedReturns : List (String × String × Nat × String) := [
   ("src/sqisigndim2_heuristic/ref/sqisigndim2_heuristicx/sign.c", "protocols_sign", 0, "coeffs,degree_full_resp,degree_odd_resp,elem_tmp,lat_commit,lattice_content,lattice_hom_chall_to_com,lideal_aux,lideal_aux_com,lideal_chall_secret,lideal_chall_two,lideal_com_resp,lideal_commit,lideal_resp_two,lideal_tmp,mat,mat_Baux0_to_Baux_can,mat_Bchall_can_to_Bchall,pow_chall,remain,resp_quat,sig_mat_pk_can_to_B_pk,temp_norm,tmp,vec,vec_chall,vec_resp_two"),
+  ("src/sqisignhd/ref/sqisignhdx/sign.c", "commit", 0, "chain:F"),
   ("src/sqisignhd/ref/sqisignhdx/sign.c", "protocols_sign", 0, "coeffs,degree_full_resp,degree_odd_resp,elem_tmp,lat_commit,lattice_content,lattice_hom_chall_to_com,lideal_chall_secret,lideal_chall_two,lideal_com_resp,lideal_commit,lideal_resp_two,lideal_tmp,mat,mat_Bchall_can_to_Bchall,mat_Bcom0_to_Bcom_can,pow_chall,remain,resp_quat,sig_mat_pk_can_to_B_pk,temp_norm,tmp,vec,vec_chall,vec_resp_two")
 ]
 
